@@ -79,7 +79,7 @@ def assumptions_text(pid):
 
 
 CONFIG = {
-    "C15": {"shard": 1200},
+    "C15": {"shard": 600},
     "C09": {"shard": 200},
     "C17": {"shard": 400},
     "C11": {"shard": 300}, "C10": {"shard": 300}, "C12": {"shard": 150},
